@@ -5,6 +5,12 @@ package stages
 // then handed to a real utils.TransferManager which sends a bundle to a peer that acknowledges every
 // segment. Decoder "mru": stage + send; decoder "sendmtu": TransferManager created directly with the value.
 //
+// Decoder "tcpcl-consume": a byte stream of TCPCLv4 messages is decoded by msgs.ReadMessage and every decoded
+// message is handed to the code that consumes it in a session: a contact header to ContactStage.Handle, a
+// SESS_INIT to SessInitStage.Handle, everything else to SessEstablishedStage.handleMsgIn and from there to a
+// real utils.TransferManager (IncomingTransfer.NextSegment, acknowledgements, ToBundle → bundle decoder).
+// canon = msgs=<decoded>,acks=<XFER_ACKs emitted>,bundles=<delivered>,errs=<manager errors>
+//
 // input = mru (8 bytes, big endian) ‖ active peer flag (1 byte) ‖ payload length (4 bytes)
 // canon = stage=ok|err,m=<SegmentMtu>,send=ok|err|timeout|skip,L=<encoded length>,nsegs=,max=,min=
 
@@ -137,6 +143,257 @@ func verifC04Stage(mru uint64, active bool) (ok bool, mtu uint64, timedOut bool)
 	return state.StageError == nil, state.SegmentMtu, false
 }
 
+// verifC04Consume pushes every message of the stream one step further, see above.
+func verifC04Consume(in []byte) (string, string) {
+	r := bytes.NewReader(in)
+	var decoded []msgs.Message
+	for r.Len() > 0 && len(decoded) < 4096 {
+		m, err := msgs.ReadMessage(r)
+		if err != nil {
+			break
+		}
+		decoded = append(decoded, m)
+	}
+	if len(decoded) == 0 {
+		return "error", "-"
+	}
+
+	tmIn := make(chan msgs.Message, len(decoded)+1)
+	tmOut := make(chan msgs.Message, 16)
+	tm := utils.NewTransferManager(tmIn, tmOut, 1048576)
+	bundleChan, errChan := tm.Exchange()
+	acks, bundles, errs := 0, 0, 0
+	stop := make(chan struct{})
+	drained := make(chan struct{})
+	var mu sync.Mutex
+	go func() {
+		defer close(drained)
+		for {
+			select {
+			case m := <-tmOut:
+				if _, ok := m.(*msgs.DataAcknowledgementMessage); ok {
+					mu.Lock()
+					acks++
+					mu.Unlock()
+				}
+			case <-bundleChan:
+				mu.Lock()
+				bundles++
+				mu.Unlock()
+			case <-errChan:
+				mu.Lock()
+				errs++
+				mu.Unlock()
+			case <-stop:
+				return
+			}
+		}
+	}()
+
+	se := &SessEstablishedStage{state: &State{ExchangeMsgIn: tmIn}}
+	forwarded := 0
+	for _, m := range decoded {
+		switch m.(type) {
+		case *msgs.ContactHeader, *msgs.SessionInitMessage:
+			msgIn := make(chan msgs.Message, 1)
+			msgOut := make(chan msgs.Message, 2)
+			state := &State{
+				Configuration: Configuration{ActivePeer: false, Keepalive: 30, SegmentMru: 1048576, TransferMru: 1 << 30,
+					NodeId: bpv7.MustNewEndpointID("dtn://me/")},
+				MsgIn:  msgIn,
+				MsgOut: msgOut,
+			}
+			msgIn <- m
+			closeChan := make(chan struct{})
+			fin := make(chan struct{})
+			go func() {
+				if _, isCh := m.(*msgs.ContactHeader); isCh {
+					(&ContactStage{}).Handle(state, closeChan)
+				} else {
+					(&SessInitStage{}).Handle(state, closeChan)
+				}
+				close(fin)
+			}()
+			select {
+			case <-fin:
+			case <-time.After(verifC04Budget()):
+				close(closeChan)
+				close(stop)
+				return "timeout", "-"
+			}
+		default:
+			if err := se.handleMsgIn(m); err == nil {
+				if _, isKeepalive := m.(*msgs.KeepaliveMessage); !isKeepalive {
+					forwarded++
+				}
+			}
+		}
+	}
+	// the manager answers every forwarded message with an acknowledgement or gives up with an error
+	deadline := time.Now().Add(verifC04Budget())
+	for {
+		mu.Lock()
+		done := errs > 0 || len(tmIn) == 0
+		mu.Unlock()
+		if done {
+			break
+		}
+		if time.Now().After(deadline) {
+			close(stop)
+			return "timeout", "-"
+		}
+		time.Sleep(200 * time.Microsecond)
+	}
+	// let the last message run through NextSegment / ToBundle
+	for i := 0; i < 50; i++ {
+		time.Sleep(200 * time.Microsecond)
+		mu.Lock()
+		settled := errs > 0 || acks+bundles >= forwarded
+		mu.Unlock()
+		if settled {
+			break
+		}
+	}
+	time.Sleep(time.Millisecond)
+	_ = tm.Close()
+	close(stop)
+	<-drained
+	return "value", fmt.Sprintf("msgs=%d,acks=%d,bundles=%d,errs=%d", len(decoded), acks, bundles, errs)
+}
+
+func verifC04Wire(m msgs.Message) []byte {
+	var buf bytes.Buffer
+	if err := m.Marshal(&buf); err != nil {
+		panic(err)
+	}
+	return buf.Bytes()
+}
+
+// verifC04Item is one Transfer Extension Item of RFC 9174: flags, type, length, value.
+func verifC04Item(flags byte, typ uint16, value []byte) []byte {
+	out := []byte{flags, byte(typ >> 8), byte(typ), byte(len(value) >> 8), byte(len(value))}
+	return append(out, value...)
+}
+
+// verifC04Segment is an XFER_SEGMENT whose Transfer Extension Items are the given bytes.
+func verifC04Segment(flags msgs.SegmentFlags, tid uint64, items []byte, data []byte) []byte {
+	seg := verifC04Wire(msgs.NewDataTransmissionMessage(flags, tid, data))
+	out := append([]byte(nil), seg[:10]...)
+	out = append(out, byte(len(items)>>24), byte(len(items)>>16), byte(len(items)>>8), byte(len(items)))
+	out = append(out, items...)
+	return append(out, seg[14:]...)
+}
+
+func verifC04U64(v uint64) []byte {
+	b := make([]byte, 8)
+	binary.BigEndian.PutUint64(b, v)
+	return b
+}
+
+func verifC04ConsumeCases(r *verifC04Rng, thorough bool) (cases []verifC04Case) {
+	nRand := 60
+	if thorough {
+		nRand = 1500
+	}
+	add := func(stream []byte, random int) {
+		cases = append(cases, verifC04Case{"tcpcl-consume", stream})
+		cases = append(cases, verifC04Random("tcpcl-consume", stream, random, r)...)
+	}
+	_, bundleLen := verifC04Bundle(40)
+	b, _ := verifC04Bundle(40)
+	var enc bytes.Buffer
+	_ = b.MarshalCbor(&enc)
+	data := enc.Bytes()
+	_ = bundleLen
+
+	// the Transfer Length extension (type 0x0001, 8 byte value) with every boundary value, on START segments
+	// carrying one byte / the whole bundle, alone and followed by the rest of the transfer
+	for _, v := range verifC04Boundary {
+		for _, fl := range []byte{0x00, 0x01} { // critical flag
+			items := verifC04Item(fl, 0x0001, verifC04U64(v))
+			add(verifC04Segment(msgs.SegmentStart, 1, items, data[:1]), 0)
+			add(verifC04Segment(msgs.SegmentStart|msgs.SegmentEnd, 2, items, data), 0)
+			two := append(verifC04Segment(msgs.SegmentStart, 3, items, data[:10]), verifC04Segment(msgs.SegmentEnd, 3, nil, data[10:])...)
+			add(two, 0)
+			// the same item on a non-START segment and twice in one segment
+			add(append(verifC04Segment(msgs.SegmentStart, 4, nil, data[:10]), verifC04Segment(msgs.SegmentEnd, 4, items, data[10:])...), 0)
+			add(verifC04Segment(msgs.SegmentStart, 5, append(append([]byte(nil), items...), items...), data[:1]), 0)
+		}
+	}
+	// unknown item types, odd value lengths, truncated items, length fields lying inside the items
+	for _, typ := range []uint16{0x0000, 0x0002, 0x7fff, 0x8000, 0xffff} {
+		for _, n := range []int{0, 1, 7, 8, 9, 300} {
+			for _, fl := range []byte{0x00, 0x01, 0xff} {
+				add(verifC04Segment(msgs.SegmentStart|msgs.SegmentEnd, 6, verifC04Item(fl, typ, bytes.Repeat([]byte{0xab}, n)), data), 0)
+			}
+		}
+	}
+	for _, n := range []int{0, 1, 7, 9, 300} {
+		add(verifC04Segment(msgs.SegmentStart|msgs.SegmentEnd, 7, verifC04Item(0, 0x0001, bytes.Repeat([]byte{0xff}, n)), data), 0)
+	}
+	base := verifC04Item(0, 0x0001, verifC04U64(uint64(len(data))))
+	for cut := 0; cut < len(base); cut++ {
+		add(verifC04Segment(msgs.SegmentStart|msgs.SegmentEnd, 8, base[:cut], data), 0)
+	}
+	for _, v := range []uint16{0, 1, 7, 9, 0x7fff, 0xffff} {
+		it := append([]byte(nil), base...)
+		it[3], it[4] = byte(v>>8), byte(v)
+		add(verifC04Segment(msgs.SegmentStart|msgs.SegmentEnd, 9, it, data), 0)
+	}
+	// honest transfers in several segment sizes; every flag combination; segments after END; unknown ids
+	for _, m := range []int{1, 7, len(data), len(data) + 5} {
+		var stream []byte
+		for i := 0; i < len(data); i += m {
+			j := i + m
+			if j > len(data) {
+				j = len(data)
+			}
+			var fl msgs.SegmentFlags
+			if i == 0 {
+				fl |= msgs.SegmentStart
+			}
+			if j == len(data) {
+				fl |= msgs.SegmentEnd
+			}
+			stream = append(stream, verifC04Segment(fl, 10, base, data[i:j])...)
+		}
+		add(stream, nRand)
+		add(append(append([]byte(nil), stream...), stream...), nRand/4)
+	}
+	for fl := 0; fl < 256; fl += 1 {
+		if !thorough && fl > 8 && fl%37 != 0 {
+			continue
+		}
+		add(verifC04Segment(msgs.SegmentFlags(fl), 11, base, data), 0)
+	}
+	// a whole session: contact header, SESS_INIT, transfer, acknowledgement/refusal for unknown transfers,
+	// keep-alive, rejection, termination
+	session := verifC04Wire(msgs.NewContactHeader(0))
+	session = append(session, verifC04Wire(msgs.NewSessionInitMessage(30, 1048576, 1<<30, "dtn://peer/"))...)
+	session = append(session, verifC04Segment(msgs.SegmentStart|msgs.SegmentEnd, 12, base, data)...)
+	session = append(session, verifC04Wire(msgs.NewKeepaliveMessage())...)
+	add(session, nRand)
+	for _, m := range []msgs.Message{
+		msgs.NewDataAcknowledgementMessage(msgs.SegmentEnd, 99, 4711), msgs.NewTransferRefusalMessage(msgs.RefusalNoResources, 98),
+		msgs.NewMessageRejectionMessage(msgs.RejectionUnsupported, msgs.XFER_SEGMENT),
+		msgs.NewSessionTerminationMessage(msgs.TerminationReply, msgs.TerminationBusy), msgs.NewKeepaliveMessage(),
+		msgs.NewContactHeader(msgs.ContactCanTls), msgs.NewSessionInitMessage(0, 0, 0, ""),
+		msgs.NewSessionInitMessage(65535, 1<<64-1, 1<<64-1, "ipn:1.1"), msgs.NewSessionInitMessage(1, 1, 1, "not an endpoint"),
+	} {
+		w := verifC04Wire(m)
+		add(w, nRand/4)
+		add(append(append([]byte(nil), w...), verifC04Segment(msgs.SegmentStart|msgs.SegmentEnd, 13, base, data)...), 0)
+	}
+	// data that is no bundle, an empty END segment, a large honest segment
+	add(verifC04Segment(msgs.SegmentStart|msgs.SegmentEnd, 14, nil, []byte("this is no bundle")), 10)
+	add(verifC04Segment(msgs.SegmentStart|msgs.SegmentEnd, 15, nil, nil), 0)
+	big, _ := verifC04Bundle(50000)
+	var bigEnc bytes.Buffer
+	_ = big.MarshalCbor(&bigEnc)
+	add(verifC04Segment(msgs.SegmentStart|msgs.SegmentEnd, 16, base, bigEnc.Bytes()), 4)
+	return
+}
+
 func verifC04Decoders() map[string]verifC04Dec {
 	parse := func(in []byte) (v uint64, active bool, payload int, ok bool) {
 		if len(in) != 13 {
@@ -145,6 +402,7 @@ func verifC04Decoders() map[string]verifC04Dec {
 		return binary.BigEndian.Uint64(in[:8]), in[8] != 0, int(binary.BigEndian.Uint32(in[9:])), true
 	}
 	return map[string]verifC04Dec{
+		"tcpcl-consume": verifC04Consume,
 		"mru": func(in []byte) (string, string) {
 			v, active, payload, ok := parse(in)
 			if !ok {
@@ -197,6 +455,7 @@ func verifC04Gen(r *verifC04Rng, thorough bool) (cases []verifC04Case) {
 			cases = append(cases, verifC04Case{"mru", enc(v, true, p)})
 		}
 	}
+	cases = append(cases, verifC04ConsumeCases(r, thorough)...)
 	return
 }
 
